@@ -1,6 +1,15 @@
 import Stackage.Props.C01
+import Stackage.Props.C20
 open Stackage Stackage.Stk
 #print axioms C01_step
 #print axioms C01_history
 #print axioms C01_index
 #print axioms C01_front
+#print axioms C20_only_unwraps
+#print axioms C20_leaves
+#print axioms C20_no_deadlock
+#print axioms C20_no_panic
+#print axioms C20_terminates
+#print axioms C20_tree
+#print axioms C20_tree_returns
+#print axioms Tree.reachable_sound
